@@ -195,6 +195,25 @@ Theorem C02_attr_mode_conversion :
 Proof. exact mode_conversion. Qed.
 Print Assumptions C02_attr_mode_conversion.
 
+(* ---- the tree: how [view_of_tar] is tied to the code ----
+   [view_of_tar] (Model/TarView.v) is a SPECIFICATION at tar level: clean path -> node, over tar entries with their names as
+   strings. It is not derived from a model of the interpreter, and it is NOT proved equal to own-C05's interpreter model
+   (Model/TreeStores.v: estargz initFields as a two-pass array machine [mem_build] + pre-order walk [view_mem], the db store's
+   streaming [initNodes]); C05 proves the two STORES equal to each other on the classes [implicit_tocb] / [rooted_tocb], which
+   says nothing about either being what the tar describes. Bridging the two developments needs (a) a model of the writer's
+   TOC emission from tar entries (names, type mapping, uname/gname elision, importTar's re-ordering, sortEntries), which
+   exists only for chunk tables here ([emit_chunks]); (b) a translation between the representations (strings vs interned
+   integers, forward vs reversed paths, flat map vs walk of an index array) and (c) an invariant of [fold_left pass2_step]
+   over the node array relating it to [node_at] - the proof C05 did for store-vs-store agreement, once more against the spec.
+   That is not done. The tie of the tree spec is therefore:
+     1. correspondence: on every generated tar, [view_of_tar] is compared node by node (all attributes, node identity, FUSE
+        attributes) with what metadata/memory AND the db store serve for the blob estargz.Build makes of that tar (both
+        harnesses, every run; the known divergences F65, F66 and C05-F12 are inputs of the model, see Model/Serve.v);
+     2. the model-free Go oracle (servex/oracle.go) computes the same view independently from the tar and checks the stores;
+     3. the theorems below, which are properties OF THE SPEC (that it has the clauses of the property: last duplicate wins,
+        implicit parents, hardlink = target) and of the shared mode/name functions - not of the interpreter.
+   The byte path, in contrast, is proved about transcriptions of the code itself (tables, lookup, ReadAt, GetPassthroughFd). *)
+
 (* view: the last duplicate of a name wins and is served with its own attributes and content *)
 Theorem C02_last_duplicate_wins :
   forall tar e, reserved (cname e) = false -> t_kind e <> KHardlink ->
